@@ -132,14 +132,57 @@ func vReadersSeeContent(file []byte, c *eContent, l *eLayout, validate bool, lab
 		}
 	}
 	if l.stats {
-		vAssert(info.Statistics != nil && info.Statistics.MessageCount == uint64(len(c.msgs)) && info.Statistics.ChunkCount == uint32(len(l.chunks)), label+": Info statistics")
+		st := info.Statistics
+		vAssert(st != nil && st.MessageCount == uint64(len(c.msgs)) && st.ChunkCount == uint32(len(l.chunks)), label+": Info statistics")
+		if st != nil {
+			vAssert(uint64(st.SchemaCount) == uint64(len(c.schemas)) && uint64(st.ChannelCount) == uint64(len(c.channels)) && uint64(st.AttachmentCount) == uint64(len(c.atts)) && uint64(st.MetadataCount) == uint64(len(c.mds)), label+": Info statistics counts")
+			var lo, hi uint64
+			for i := range c.msgs {
+				t := c.msgs[i].log
+				if i == 0 {
+					lo, hi = t, t
+				} else {
+					lo = vIte(t < lo, t, lo)
+					hi = vIte(t > hi, t, hi)
+				}
+			}
+			vAssert(vAnd(st.MessageStartTime == lo, st.MessageEndTime == hi), label+": Info statistics time range")
+			per := map[uint16]uint64{}
+			for i := range c.msgs {
+				per[c.msgs[i].ch]++
+			}
+			for id, n := range per {
+				vAssert(st.ChannelMessageCounts[id] == n, label+": Info statistics per-channel counts")
+			}
+		}
 	}
 	if l.chunkIdx {
 		vAssert(len(info.ChunkIndexes) == len(l.chunks), label+": Info lists every chunk index")
+		// every field of every chunk index as laid out (Info keeps summary order = chunk order here)
+		for i, g := range info.ChunkIndexes {
+			if i >= len(eLast.chunks) {
+				break
+			}
+			e := &eLast.chunks[i]
+			vAssert(g.ChunkStartOffset == e.start && g.ChunkLength == e.length && g.MessageIndexLength == e.idxLen, label+": Info chunk index location fields")
+			vAssert(vAnd(g.MessageStartTime == e.startT, g.MessageEndTime == e.endT), label+": Info chunk index times")
+			vAssert(g.CompressedSize == e.compressedN && g.UncompressedSize == e.uncompressN && string(g.Compression) == e.comp, label+": Info chunk index sizes and compression")
+			if l.msgIdx {
+				vAssert(len(g.MessageIndexOffsets) == len(e.idxOff), label+": Info chunk index message index offsets")
+				for id, off := range e.idxOff {
+					vAssert(g.MessageIndexOffsets[id] == off, label+": Info chunk index message index offset value")
+				}
+			}
+		}
 	}
 	if l.attIdx {
 		vAssert(len(info.AttachmentIndexes) == len(c.atts), label+": Info lists every attachment index")
 		for i, ai := range info.AttachmentIndexes {
+			if i < len(eLast.atts) {
+				e := &eLast.atts[i]
+				vAssert(ai.Offset == e.off && ai.Length == e.length && ai.DataSize == uint64(len(e.a.data)), label+": Info attachment index location fields")
+				vAssert(vAnd(vAnd(ai.LogTime == e.a.logTime, ai.CreateTime == e.a.createTime), vAnd(vStrEq(ai.Name, e.a.name), vStrEq(ai.MediaType, e.a.mediaType))), label+": Info attachment index value fields")
+			}
 			ar, err := r.GetAttachmentReader(ai.Offset)
 			vAssert(err == nil, label+": attachment reachable through its index")
 			d, err := io.ReadAll(ar.Data())
@@ -149,6 +192,9 @@ func vReadersSeeContent(file []byte, c *eContent, l *eLayout, validate bool, lab
 	if l.mdIdx {
 		vAssert(len(info.MetadataIndexes) == len(c.mds), label+": Info lists every metadata index")
 		for i, mx := range info.MetadataIndexes {
+			if i < len(eLast.mds) {
+				vAssert(mx.Offset == eLast.mds[i].off && mx.Length == eLast.mds[i].length && vStrEq(mx.Name, eLast.mds[i].name), label+": Info metadata index fields")
+			}
 			md, err := r.GetMetadata(mx.Offset)
 			vAssert(err == nil && vStrEq(md.Name, c.mds[i].Name) && vMapEq(md.Metadata, c.mds[i].Metadata), label+": metadata through its index")
 		}
